@@ -187,6 +187,12 @@ class Engine(object):
     def gram(self, space):
         key = id(space)
         if key not in self.grams:
+            # equal spaces (ODL's own ==, identity for array weightings)
+            # share one Gram matrix
+            for G, sp in list(self.grams.values()):
+                if type(sp) is type(space) and sp == space:
+                    self.grams[key] = (G, space)
+                    return G
             n = flat.rdim(space)
             eye = np.eye(n)
             E = [flat.unflat(eye[k], space) for k in range(n)]
@@ -338,10 +344,6 @@ def check_operator(node, eng, bound_children):
         raise HarnessError('builder of {} returned {!r}'.format(node.entry,
                                                                  type(A)))
     reg, g, bd = region(A, eng)
-    tail = '{}|{}'.format(cls, reg)
-    opts = _option_tag(node)
-    if opts:
-        tail += ',' + opts
     X, Y = A.domain, A.range
     n, m = flat.rdim(X), flat.rdim(Y)
     dim = max(n, m, 1)
@@ -360,12 +362,24 @@ def check_operator(node, eng, bound_children):
         eng.strata.append('status:not-flagged-linear:' + cls)
         return None
 
-    M, off = eng.matrix(A, X, Y, 'A', tail)
+    M, off = eng.matrix(A, X, Y, 'A', '{}|{}'.format(cls, reg))
     if not np.all(np.isfinite(M)):
         eng.strata.append('status:non-finite-matrix:' + cls)
         return None
     mfro = _fro(M)
     bound = max(mfro, bound_children(mfro))
+    # between complex spaces: complex-linear, or only real-linear?
+    both_complex = flat.is_complex_space(X) and flat.is_complex_space(Y) \
+        and n > 0 and m > 0
+    clinear = both_complex and _fro(
+        M @ flat.complex_structure(X) - flat.complex_structure(Y) @ M) <= \
+        ktol * max(bound, 1e-300)
+    if both_complex:
+        reg += ',lin=' + ('C' if clinear else 'R')
+    tail = '{}|{}'.format(cls, reg)
+    opts = _option_tag(node)
+    if opts:
+        tail += ',' + opts
     # linear at all?  A(0) = 0 and A(x) = M x for one dense vector
     x = np.cos(np.arange(1, n + 1) * 1.7) * 2.0
     Ax = flat.flat(eng.apply(A, flat.unflat(x, X), Y, 'A', tail), Y)
@@ -463,9 +477,9 @@ def check_operator(node, eng, bound_children):
         raise Violation('C05|gram|' + tail, detail)
 
     # ---- complex linearity -----------------------------------------------
-    if flat.is_complex_space(X) and flat.is_complex_space(Y) and n and m:
+    if both_complex:
         JX, JY = flat.complex_structure(X), flat.complex_structure(Y)
-        if _fro(M @ JX - JY @ M) <= ktol * max(bound, 1e-300):
+        if clinear:
             eng.strata.append('complex-linear')
             c = _fro(N @ JY - JX @ N)
             if not c <= ktol * max(_fro(N), bound, 1e-300):
@@ -525,7 +539,7 @@ def check_operator(node, eng, bound_children):
 
 
 COMBINATORS = ('sum', 'sub', 'comp', 'pow', 'neg', 'lvec', 'rvec', 'flvec',
-               'broadcast', 'reduction', 'diagonal', 'pspaceop', 'adjoint')
+               'broadcast', 'reduction', 'diagonal', 'pspaceop')
 SCALAR_COMBINATORS = ('lscal', 'rscal', 'rscal_mul', 'div')
 
 
